@@ -10,6 +10,7 @@ package sst
 import (
 	"fmt"
 	"math/bits"
+	"runtime"
 	"runtime/debug"
 	"sync"
 	"testing"
@@ -31,8 +32,11 @@ type Case struct {
 func TestCheck(t *testing.T) {
 	// The harness allocates many short-lived objects with a tiny live heap; Pebble's sync.Pools (block
 	// buffers, filter builders) are emptied by every GC cycle. Collect by heap size, not by growth.
-	debug.SetGCPercent(-1)
-	debug.SetMemoryLimit(384 << 20)
+	// A never-touched (hence non-resident) pointer-free ballast makes the collector run once per
+	// ~ballast bytes allocated.
+	ballast := make([]byte, 256<<20)
+	defer runtime.KeepAlive(ballast)
+	debug.SetGCPercent(100)
 	vlib.Main(t, "C25", func(c *vlib.Ctx) {
 		if c.ReplayPath() != "" {
 			var cs Case
